@@ -24,7 +24,7 @@ static uint64_t edn_value_hash_internal(const edn_value_t* value);
  * - Booleans: true == true, false == false
  * - Numbers: Compare by value (NaN == NaN in EDN semantics)
  * - Characters: Compare Unicode codepoints
- * - Strings: Compare raw bytes (zero-copy, no decoding)
+ * - Strings: Compare the denoted bytes (decoded lazily only when a literal has escapes)
  * - Symbols/Keywords: Compare namespace and name
  * - Lists/Vectors: Element-wise comparison in order
  * - Sets/Maps: Order-independent comparison
@@ -48,6 +48,30 @@ static inline uint64_t edn_value_get_hash(edn_value_t* value) {
         value->cached_hash = (hash == 0) ? 1 : hash;
     }
     return value->cached_hash;
+}
+
+/**
+ * The bytes a string value denotes, for equality and hashing.
+ *
+ * A literal written without escapes denotes its raw bytes. A literal written
+ * with escapes denotes its decoded bytes, so that "a\nb" equals the same text
+ * written with a raw newline or as a text block. A literal whose escapes cannot
+ * be decoded denotes nothing: *valid is false and the raw text is returned, so
+ * that it still equals (only) the same invalid text.
+ */
+static const char* edn_string_content(const edn_value_t* value, size_t* length, bool* valid) {
+    *valid = true;
+    if (!edn_string_has_escapes(value)) {
+        *length = edn_string_get_length(value);
+        return value->as.string.data;
+    }
+    const char* decoded = edn_string_get(value, length);
+    if (decoded == NULL) {
+        *valid = false;
+        *length = edn_string_get_length(value);
+        return value->as.string.data;
+    }
+    return decoded;
 }
 
 static bool edn_value_equal_internal(const edn_value_t* a, const edn_value_t* b, int depth) {
@@ -140,10 +164,12 @@ static bool edn_value_equal_internal(const edn_value_t* a, const edn_value_t* b,
             return a->as.character == b->as.character;
 
         case EDN_TYPE_STRING: {
-            size_t len_a = edn_string_get_length(a);
-            size_t len_b = edn_string_get_length(b);
+            size_t len_a, len_b;
+            bool valid_a, valid_b;
+            const char* content_a = edn_string_content(a, &len_a, &valid_a);
+            const char* content_b = edn_string_content(b, &len_b, &valid_b);
 
-            if (edn_string_has_escapes(a) != edn_string_has_escapes(b)) {
+            if (valid_a != valid_b) {
                 return false;
             }
 
@@ -151,7 +177,7 @@ static bool edn_value_equal_internal(const edn_value_t* a, const edn_value_t* b,
                 return false;
             }
 
-            return memcmp(a->as.string.data, b->as.string.data, len_a) == 0;
+            return memcmp(content_a, content_b, len_a) == 0;
         }
 
         case EDN_TYPE_SYMBOL:
@@ -522,9 +548,12 @@ static uint64_t edn_value_hash_internal(const edn_value_t* value) {
             break;
 
         case EDN_TYPE_STRING: {
-            size_t len = edn_string_get_length(value);
+            /* Hash what equality compares: the denoted bytes */
+            size_t len;
+            bool valid;
+            const char* content = edn_string_content(value, &len, &valid);
             for (size_t i = 0; i < len; i++) {
-                hash ^= (uint8_t) value->as.string.data[i];
+                hash ^= (uint8_t) content[i];
                 hash *= FNV_PRIME;
             }
             break;
